@@ -7,6 +7,7 @@ import (
 	"context"
 	"errors"
 	"fmt"
+	"math"
 	"strings"
 	"sync"
 	"time"
@@ -1725,6 +1726,13 @@ func (c *Client) runHandleInvocation(msg *wamp.Invocation) {
 
 		// Create a kill switch so that invocation can be canceled.
 		if timeout > 0 {
+			// Keep the timeout within what time.Duration can hold, so that a
+			// huge value does not wrap around and cancel the invocation at
+			// once.
+			const maxTimeoutMs = int64(math.MaxInt64 / int64(time.Millisecond))
+			if timeout > maxTimeoutMs {
+				timeout = maxTimeoutMs
+			}
 			// The caller specified a timeout, in milliseconds.
 			ctx, cancel = context.WithTimeout(context.Background(),
 				time.Millisecond*time.Duration(timeout))
